@@ -94,11 +94,12 @@ class StreamCollection:
 
     def _ensure_sorted(self):
         """(Internal) Sort streams if needed."""
-        if self._needs_sort:
-            self._sorted_cache = sorted(
-                self._streams.values(), key=self._sort_key, reverse=self._sort_reverse
-            )
-            self._needs_sort = False
+        # Members are mutable: re-sort on every access, a cached order goes stale when a
+        # member's sort attribute is reassigned after the last sort.
+        self._sorted_cache = sorted(
+            self._streams.values(), key=self._sort_key, reverse=self._sort_reverse
+        )
+        self._needs_sort = False
 
     def __iter__(self):
         self._ensure_sorted()
